@@ -8,6 +8,10 @@ var specs = map[string]*checkSpec{
 		rule: "BFS over histories of the 41 writer-configuration operations (methods; first step also as New(...) options) from 3 roots, de-duplicated on the logger's writer lists by identity; every transition is compared with the reference semantics of the operation, every reached state is probed with one record per severity class (9) and the per-writer deliveries (3 pool writers, parent writer, stdout, stderr) compared with the reference selection; distinct = distinct configurations reached"},
 	"C04": {id: "C04", level: "model_checking",
 		rule: "full product of the per-layer alphabets (L1 message bytes and critical pairs, L2 key x value kind incl. special values, L3 attribute lists over representatives, L4 group shapes x positions) x caller on/off x named/unnamed logger; every record is emitted by the real logger in JSON mode and decoded with the encoding/json based oracle; every enumerated input is distinct; distinct_outcomes = distinct payloads"},
+	"C05": {id: "C05", level: "model_checking",
+		rule: "the C04 layered product with legal logfmt keys, emitted by the real logger in logfmt mode in a production-mode process and parsed by the independent tokenizer (+ strconv.Unquote); every enumerated input is distinct; distinct_outcomes = distinct payloads"},
+	"C06": {id: "C06", level: "model_checking", testMode: true,
+		rule: "full product per layer: (A) 15 severities x level-tag widths 1..5 x minimal widths {16,36,60} x 28 messages, (B) messages x 20 attribute lists x caller x named, (C) every value representative x 5 severities, (D) the C04 generic layers; each record is emitted by the real logger in colored mode, its raw payload run through the SGR terminal-state simulator (hygiene) and its escape-stripped text through the layout parser; every enumerated input is distinct; distinct_outcomes = distinct payloads"},
 	"C19": {id: "C19", level: "model_checking",
 		rule: "BFS over histories of the ~57-op buffer alphabet from 5 roots, PrintCtx and bytes.Buffer driven in lock-step; a state is the implementation's full internal tuple (content, off, len, cap, lastRead); distinct = distinct canonical states reached"},
 }
